@@ -666,3 +666,59 @@ def targets():      # noqa: F811
     from . import c03
     shared = [t for t in c03.targets() if any(k in t[0] for k in ("Parser.element", "Parser limit checks", "Element.to_string", "Container.to_string"))]
     return _targets_before_roundtrip() + shared
+
+
+_targets_before_set_subcircuits = targets
+
+
+def target_set_subcircuits():
+    """`Container.set_subcircuits(*args, **kwargs)`: EVERY given (key, connection) pair is stored under its key (positional pairs and
+    keywords alike), the sub-circuits that were not named keep what they had; an unknown key is refused with KeyError, something that
+    is neither a Connection nor None with TypeError, an odd number of positional arguments with ValueError, a key given both ways with
+    KeyError; returns the container.  Real method on recording stand-ins."""
+    from pyvc import overload as O
+    BASE = "circuit/base"
+
+    def run(sess: Session):
+        class Connection:
+            def __init__(self, n):
+                self.n = n
+        A, Bc, Cc, old1, old2, old3 = (Connection(x) for x in ("A", "B", "C", "old X_1", "old X_2", "old Zeta"))
+        ns = {"Connection": Connection, "isinstance": isinstance, "len": len, "list": list}
+        O.load(BASE, ["Container.set_subcircuits"], ns)
+        fn = ns["set_subcircuits"]
+
+        def fresh_me():
+            return type("Me", (), {})(), {"X_1": old1, "X_2": old2, "Zeta": old3}
+        cases = [("one keyword", (), {"X_1": A}, {"X_1": A}), ("two keywords", (), {"X_1": A, "Zeta": Bc}, {"X_1": A, "Zeta": Bc}), ("three keywords, one open", (), {"X_1": A, "X_2": None, "Zeta": Cc}, {"X_1": A, "X_2": None, "Zeta": Cc}),
+                 ("two positional pairs", ("X_1", A, "X_2", Bc), {}, {"X_1": A, "X_2": Bc}), ("a pair and a keyword", ("Zeta", Cc), {"X_1": A}, {"Zeta": Cc, "X_1": A})]
+        for name, args, kw, want in cases:
+            me, sub = fresh_me()
+            me._subcircuit_value = sub
+            before = dict(sub)
+            try:
+                out = fn(me, *args, **kw)
+                raised = None
+            except Exception as ex:       # noqa: BLE001
+                out, raised = None, type(ex).__name__
+            tag = f" [{name}]"
+            sess.check("post", [], z3.BoolVal(raised is None and out is me), 0, label="connections and None for known keys are accepted; the container is returned" + tag)
+            ok = all(me._subcircuit_value.get(k) is v for k, v in want.items()) and all(me._subcircuit_value.get(k) is before[k] for k in before if k not in want) and sorted(me._subcircuit_value) == sorted(before)
+            ob = sess.check("post", [], z3.BoolVal(ok), 0, label="every given pair is stored under its key, the other sub-circuits keep what they had" + tag)
+            if not ok:
+                ob.detail = str({k: getattr(v, "n", v) for k, v in me._subcircuit_value.items()})
+        for name, args, kw, exc in (("an unknown key", (), {"Nope": A}, "KeyError"), ("a value that is not a connection", (), {"X_1": 5.0}, "TypeError"), ("an odd number of positional arguments", ("X_1", A, "X_2"), {}, "ValueError"),
+                                    ("a key given both ways", ("X_1", A), {"X_1": Bc}, "KeyError")):
+            me, sub = fresh_me()
+            me._subcircuit_value = sub
+            try:
+                fn(me, *args, **kw)
+                raised = None
+            except Exception as ex:       # noqa: BLE001
+                raised = type(ex).__name__
+            sess.check("post", [], z3.BoolVal(raised == exc), 0, label=f"{name} is refused with {exc}")
+    return (f"{BASE}:Container.set_subcircuits", BASE, "Container.set_subcircuits", run)
+
+
+def targets():      # noqa: F811
+    return _targets_before_set_subcircuits() + [target_set_subcircuits()]
